@@ -89,6 +89,10 @@ SCRIPTS = {
     'formatter-text': "from pedal import *\nfrom pedal.core.formatting import TextFormatter\nset_formatter(TextFormatter)\nassert_equal(call('add', 1, 2), 4)\n",
     'mock-function': "from pedal import *\nfrom pedal.sandbox.commands import mock_function, block_function, allow_function\nmock_function('print', lambda *a, **k: None)\nblock_function('len')\nrun()\nassert_equal(call('add', 1, 2), 3)\n",
     'block-module': "from pedal import *\nfrom pedal.sandbox.commands import block_module, allow_module, mock_module\nblock_module('math')\nblock_module('random')\nrun()\n",
+    'question-pools-seeded-per-pool': "from pedal import *\nfrom pedal.questions import Question, Pool, set_seed\nset_seed([1, 0])\n"
+                                      "first = Pool('P1', [Question('QA', 'Write a loop.', [lambda q: False]), Question('QB', 'Write a branch.', [lambda q: False])])\n"
+                                      "second = Pool('P2', [Question('QC', 'Define add.', [lambda q: False]), Question('QD', 'Call add.', [lambda q: False])])\n"
+                                      "first.ask()\nsecond.ask()\n",
     'block-sys-and-time': "from pedal import *\nfrom pedal.sandbox.commands import block_module\nblock_module('sys')\nblock_module('time')\nrun()\nassert_equal(call('add', 1, 2), 3)\n",
     'mock-module': "from pedal import *\nfrom pedal.sandbox.commands import mock_module\nclass FakeMath:\n    def floor(self, v):\n        return 99\nmock_module('math', {'floor': lambda v: 99}, 'mathy')\nrun()\nassert_equal(call('add', 1.5, 2), 3)\n",
     'sections-left-open': "from pedal import *\nfrom pedal.source import separate_into_sections, next_section\nfrom pedal.tifa import tifa_analysis\nseparate_into_sections()\nnext_section()\nverify()\ntifa_analysis()\n",
@@ -133,6 +137,7 @@ DESIGNED_PAIRS = [
     # the modules pedal itself patches by name or by object are blocked by the script
     [('block-sys-and-time', 'good'), ('plain-assert', 'good'), ('plain-assert', 'exit')],
     [('block-sys-and-time', 'exit'), ('inputs-and-output', 'reads-input')],
+    [('question-pools-seeded-per-pool', 'good'), ('question-pools-seeded-per-pool', 'good'), ('question-pools-seeded-per-pool', 'wrong')],
     [('plain-assert', 'lowers-recursion-limit'), ('static-checks', 'defines-class'), ('plain-assert', 'good')],
 ]
 
